@@ -187,18 +187,21 @@ func (r *runningRoutine[K, V]) remove() {
 		return
 	}
 
+	var timer *time.Timer
 	timerCb := func() {
 		verifhook.Point("keyed.timer.remove", r.data)
 		verifhook.Point("keyed.lock", r.k)
 		r.k.mtx.Lock()
 		verifhook.Enter(r.k)
-		if r.k.routines[r.key] == r && r.deferRemove != nil {
-			_ = r.deferRemove.Stop()
+		// a timer that fired before it was stopped must not remove a key that was
+		// requested again (and possibly released again) in the meantime
+		if r.k.routines[r.key] == r && r.deferRemove == timer {
 			r.deferRemove = nil
 			removeNow()
 		}
 		verifhook.Leave(r.k)
 		r.k.mtx.Unlock()
 	}
-	r.deferRemove = time.AfterFunc(r.k.releaseDelay, timerCb)
+	timer = time.AfterFunc(r.k.releaseDelay, timerCb)
+	r.deferRemove = timer
 }
